@@ -337,7 +337,7 @@ def purity_violations(calls, orders=None, what="value"):
         return False
 
     for i in range(n):
-        vals = {r[i] for r in results}
+        vals = {r[i] for r in results if i in r}  # (an order may be partial, e.g. a single call on its own)
         if differ(vals):
             label, path, args, _ = calls[i]
             shown = [float(np.frombuffer(v[1])[0]) if v[0] == "ok" and len(v[1]) >= 8 else v for v in vals]
